@@ -3,7 +3,8 @@ from . import streams_geom, streams_interp, streams_interplocate, cli
 ID = 'C11'
 PROPS_MODULE = ['Refine.Props.C11', 'Refine.Props.C11Search', 'Refine.Props.C11Locate']
 STREAMS = [streams_geom.INTERP, streams_geom.BARY, streams_interp.SEARCH, streams_interp.SELF, cli.INTERP, cli.INTERP_MPI,
-           streams_interplocate.LOCATE, streams_interplocate.LOCATE_MPI2, streams_interplocate.LOCATE_MPI3]
+           streams_interplocate.LOCATE, streams_interplocate.LOCATE_MPI2, streams_interplocate.LOCATE_MPI3,
+           streams_interplocate.CLI_OFFSET, streams_interplocate.CLI_OFFSET_MPI]
 EXPLANATION = (
     'Proved (Lean 4, exact real arithmetic, over the executable model bit-compared with the C): ref_node_clip_bary2/3/4 '
     'return a point of the simplex on the success branch (w_i >= 0, sum 1) and a unit vector on the REF_DIV_ZERO branch; '
